@@ -270,6 +270,27 @@ def run(index, rep, tier):
                       "%s returns a value inside its loop but can also leave the loop and fall off the end, returning None: with the running remainder `rnd` reduced weight by weight, rounding can leave it >= 0 after the last weight for a generator output just below 1.0 (a legitimate Random.random() value), and the simulators then index a list with None - birth_death_tree dies with TypeError for that generator state" % f.qualname)
         rep.floor("R18.10", "value-returning functions of the probability module", 5, nch)
 
+    # ---- R18.11 a fresh label is probed the way it is required
+    with rep.section("R18.11"):
+        rep.rule("R18.11", "a fresh label is probed the way it is required: where a simulator invents labels in a loop and then calls require_taxon(label=...), the test that lets the loop stop asks the namespace itself (has_taxon_label / get_taxon / findall) - require_taxon matches labels by the namespace's own case rule, so a case-sensitive set of labels can pass `T1` while the namespace already holds `t1` and hands that taxon out a second time")
+        nprobe = 0
+        for m in SIM_MODULES[:3]:
+            for f in index.functions_in_module(m):
+                for c in calls_in(f.node):
+                    if call_name(c) != "require_taxon" or get_kwarg(c, "label") is None or not isinstance(get_kwarg(c, "label"), ast.Name):
+                        continue
+                    lab = get_kwarg(c, "label").id
+                    loops = [w for w in walk_no_nested(f.node) if isinstance(w, ast.While) and any(isinstance(a, ast.Assign) and norm(a.targets[0]) == lab for a in ast.walk(w)) and any(isinstance(b, ast.Break) for b in ast.walk(w))]
+                    if not loops:
+                        continue
+                    nprobe += 1
+                    w = loops[-1]
+                    tests = [t for t in ast.walk(w) if isinstance(t, ast.If) and any(isinstance(b, ast.Break) for b in ast.walk(t))]
+                    asks_ns = any(isinstance(x, ast.Call) and call_name(x) in ("has_taxon_label", "get_taxon", "findall", "has_taxa_labels") and any(isinstance(z, ast.Name) and z.id == lab for z in ast.walk(x)) for t in tests for x in ast.walk(t.test))
+                    rep.check(asks_ns, "R18.11", f.qualname, "fresh label probed against a plain set, required through the namespace", fn_where(f, w), "%s probes `%s` through the namespace" % (f.name, lab),
+                              "%s invents `%s` until `%s` and then calls require_taxon(label=%s): the probe compares spellings exactly while require_taxon matches by the namespace's case rule (case-insensitive by default), so with a supplied namespace [t1, t2, t3] the label T1 passes the probe, require_taxon returns the existing t1, and that taxon ends up on two leaves - N leaves no longer carry N distinct taxa" % (f.qualname, lab, norm(tests[0].test)[:50] if tests else "?", lab))
+        rep.floor("R18.11", "label-inventing loops feeding require_taxon", 2, nprobe)
+
 
 def _distinct_labels_rule(index, rep):
     """R18.3: `require_taxon(label=L)` returns an *existing* taxon when the label is taken, so a
